@@ -26,7 +26,7 @@ func init() {
 		},
 		Real:       append(append([]string{}, realAll...), "db/fs (compiled against the simulated os)", "db/postgres"),
 		Stub:       append(append([]string{}, stubAll...), "reference model refvm (oracle)", "OS filesystem (simfs)", "Postgres server (pgfake)"),
-		FaultKinds: []string{"restart", "ext_error", "client_browse_oob", "client_garbage"},
+		FaultKinds: []string{"restart", "first_func_blocks_request", "ext_error", "client_browse_oob", "client_garbage"},
 	})
 }
 
@@ -103,7 +103,29 @@ func runC04(c *core.Ctx) *core.Outcome {
 		if deep && len(r.m.Path) >= 127 {
 			o.Probes["deep_request_at_127_or_more_entries"]++
 		}
+		turnedAway := persisted && cfg.First && i > 0 && !deep && t.Chance(1, 8)
 		t.End()
+		if turnedAway {
+			// the pre-VM function answers this request itself (TERMINATE plus a notice): no instruction runs,
+			// so no move is executed and the position - node path and page index - is what it was
+			r.s.BlockFirstNext = "barred"
+			st := r.s.Request(in, true)
+			r.s.BlockFirstNext = ""
+			o.Counts["requests"]++
+			o.Faults["first_func_blocks_request"]++
+			if st.Panic != "" {
+				o.Probes["foreign_panic"]++
+				break
+			}
+			if !r.m.Ended && !r.m.Blocked {
+				ap, ai := r.s.Position()
+				if strings.Join(ap, "/") != strings.Join(r.m.Path, "/") || ai != r.m.Idx {
+					return finishModel(o, c, r).Fail("position-changed-by-turned-away-request", i, nil,
+						"request %d input %s was turned away by the pre-VM function (no instruction ran): the position is %v/%d, before the request it was %v/%d", i, short(string(in)), ap, ai, r.m.Path, r.m.Idx)
+				}
+			}
+			continue
+		}
 		before := strings.Join(r.m.Path, "/")
 		ob := r.request(in, fresh)
 		o.Counts["requests"]++
